@@ -11,6 +11,7 @@ import (
 	"io"
 	"os"
 	"runtime/debug"
+	"sort"
 	"strings"
 	"testing"
 
@@ -371,6 +372,8 @@ type pipeGenOpts struct {
 	faultKinds []string // default: all
 	refine     bool     // also make the reference a pure contraction of the base tree (compared trees are refinements)
 	twoBases   bool     // collections built from two base trees so that split frequencies sit on k/n exactly
+	maxFaults  int      // more than one faulty record in a stream (default 1)
+	zeroTrees  bool     // the stream may be empty
 	minTax     int
 	maxTax     int
 	maxTrees   int
@@ -379,14 +382,20 @@ type pipeGenOpts struct {
 }
 
 func genPipe(rt *rapid.T, tier string, op pipeGenOpts) *PipeCase {
+	if op.maxFaults == 0 {
+		op.maxFaults = 1
+	}
 	r := rapidRnd{rt}
 	pc := &PipeCase{}
 	pc.Algo = rapid.SampledFrom(op.algos).Draw(rt, "algo")
 	ntax := drawTaxa(rt, op.minTax, op.maxTax)
-	tx := taxa(ntax, "t")
+	tx := drawTaxaNames(rt, ntax)
 	maxdeg := rapid.IntRange(2, 4).Draw(rt, "maxdeg")
 	base := RandomTree(tx, r, maxdeg, true)
 	ntrees := rapid.IntRange(1, op.maxTrees).Draw(rt, "ntrees")
+	if op.zeroTrees && rapid.IntRange(0, 11).Draw(rt, "empty") == 0 {
+		ntrees = 0
+	}
 	var models []*RNode
 	var base2 *RNode
 	for i := 0; i < ntrees; i++ {
@@ -420,7 +429,9 @@ func genPipe(rt *rapid.T, tier string, op pipeGenOpts) *PipeCase {
 	refm := base.Clone(nil)
 	switch rapid.IntRange(0, 3).Draw(rt, "refkind") {
 	case 0:
-		refm = models[r.Intn(len(models))].Clone(nil)
+		if len(models) > 0 {
+			refm = models[r.Intn(len(models))].Clone(nil)
+		}
 	case 1:
 		refm = related(base, r, 1, 1)
 	case 2:
@@ -444,7 +455,14 @@ func genPipe(rt *rapid.T, tier string, op pipeGenOpts) *PipeCase {
 	pc.Feed = rapid.SampledFrom([]string{"reader", "chan"}).Draw(rt, "feed")
 	pc.BufSz = []int{4096, 16, 64, 65536}[rapid.IntRange(0, 3).Draw(rt, "bufsz")]
 	pc.Chunk = []int{4096, 1, 7, 64}[rapid.IntRange(0, 3).Draw(rt, "chunk")]
+	nfaults := 0
 	if op.faults && rapid.IntRange(0, 2).Draw(rt, "withfault") == 0 {
+		nfaults = 1
+		if op.maxFaults > 1 && rapid.IntRange(0, 2).Draw(rt, "several") == 0 {
+			nfaults = rapid.IntRange(2, op.maxFaults).Draw(rt, "nfaults")
+		}
+	}
+	for ; nfaults > 0; nfaults-- {
 		kinds := []string{"foreign", "missing", "extra", "duptip", "malformed"}
 		if pc.Feed == "chan" {
 			kinds = append(kinds, "errrec")
@@ -462,6 +480,11 @@ func genPipe(rt *rapid.T, tier string, op pipeGenOpts) *PipeCase {
 		switch kind {
 		case "foreign":
 			text = replaceTip(text, tx[r.Intn(len(tx))], "FOREIGN")
+			if a, b, ok := shiftedPair(tx, r); ok && rapid.Bool().Draw(rt, "shift") {
+				// adversarial variant: two names exchanged for two others with the same concatenation (A,BC -> AB,C)
+				text = replaceTip(replaceTip(src.Newick(), a[0], "#1#"), a[1], "#2#")
+				text = strings.Replace(strings.Replace(text, "#1#", b[0], 1), "#2#", b[1], 1)
+			}
 		case "extra":
 			victim := tx[r.Intn(len(tx))]
 			text = replaceTip(text, victim, "("+victim+":0.5,EXTRA:0.5)")
@@ -501,6 +524,41 @@ func genPipe(rt *rapid.T, tier string, op pipeGenOpts) *PipeCase {
 	}
 	pc.Sched = genSched(rt)
 	return pc
+}
+
+// shiftedPair looks for two names x < y adjacent in sorted order such that moving the first letter of y to the end of x
+// gives two new names that are not taxa and keep the sorted concatenation of the whole set unchanged.
+func shiftedPair(tx []string, r Rnd) (old, repl [2]string, ok bool) {
+	sorted := append([]string(nil), tx...)
+	sort.Strings(sorted)
+	has := map[string]bool{}
+	for _, t := range tx {
+		has[t] = true
+	}
+	start := r.Intn(len(sorted))
+	for k := 0; k < len(sorted)-1; k++ {
+		i := (start + k) % (len(sorted) - 1)
+		x, y := sorted[i], sorted[i+1]
+		if len(y) < 2 {
+			continue
+		}
+		nx, ny := x+y[:1], y[1:]
+		if has[nx] || has[ny] || nx == ny || strings.ContainsAny(nx+ny, "():,;[]") {
+			continue
+		}
+		// the new names must sort at the same two positions
+		lo, hi := "", "\xff"
+		if i > 0 {
+			lo = sorted[i-1]
+		}
+		if i+2 < len(sorted) {
+			hi = sorted[i+2]
+		}
+		if lo < nx && nx < ny && ny < hi {
+			return [2]string{x, y}, [2]string{nx, ny}, true
+		}
+	}
+	return
 }
 
 func indexOf(xs []string, x string) int {
